@@ -527,6 +527,23 @@ fn family_api(ctx: &Ctx, st: &Stats, with_big: bool) -> u64 {
             if ok != want {
                 ctx.violation("add-field-order", "codec", "api", json!({"kind":"pair","a":codec::tag_name(&tags[a]),"b":codec::tag_name(&tags[b]),"accepted":ok}));
             }
+            // a refused add_field leaves the message as it was: same fields, same encoding, and the
+            // message can still be extended and round-trips
+            if !ok {
+                let only_a = codec::encode(&Msg { fields: vec![(tags[a], vec![0; 4])] });
+                let r = catch(|| (m.num_fields(), subject_fields(&m), m.encode()));
+                match r {
+                    Ok((n, f, Ok(enc))) => {
+                        if n != 1 || f != vec![(tags[a], vec![0u8; 4])] || enc != only_a {
+                            ctx.violation("refused-add-field-changes-message", "codec", "api", json!({"kind":"pair","a":codec::tag_name(&tags[a]),"b":codec::tag_name(&tags[b]),"num_fields":n,"fields":summarize(&f),"encoded":hex_trunc(&enc, 64)}));
+                        } else if RtMessage::from_bytes(&enc).is_err() {
+                            ctx.violation("roundtrip-rejected", "codec", "api", json!({"kind":"pair","a":codec::tag_name(&tags[a]),"b":codec::tag_name(&tags[b])}));
+                        }
+                    }
+                    Ok((_, _, Err(e))) => ctx.violation("api-error", "codec", "api", json!({"kind":"pair","a":codec::tag_name(&tags[a]),"b":codec::tag_name(&tags[b]),"message":format!("encode after a refused add_field: {:?}", e)})),
+                    Err(p) => ctx.violation("api-panic", "codec", "api", json!({"kind":"pair","a":codec::tag_name(&tags[a]),"b":codec::tag_name(&tags[b]),"panic":p})),
+                }
+            }
         }
     }
     total + 324
